@@ -294,84 +294,93 @@ Section PssRsa.
   Hypothesis Hbytes : forall m, all_bytes (hash m) = true.
   Variables n e : Z.
   Variable priv : Z -> Z.
-  Hypothesis Hn : 0 < n.
+  Hypothesis Hn : 1 < n.
   Hypothesis Hsz : numBytes n <= 2 ^ 32.
   Hypothesis Hpriv : forall x, 0 <= x < n -> 0 <= priv x < n /\ powmod (priv x) e n = x.
 
+  (* facts shared by the theorems below: EM (emLen bytes) left-padded to the modulus length *)
+  Lemma padded_em mHash salt EM :
+    all_bytes salt = true ->
+    EMSA_PSS_encode hash hLen mHash (numBits n - 1) salt = Ok EM ->
+    let emLen := divceil (numBits n - 1) 8 in
+    let pad := zeros (Z.max (numBytes n - zlen EM) 0) in
+    0 <= numBytes n - emLen <= 1 /\ zlen pad = numBytes n - emLen /\ zlen (pad ++ EM) = numBytes n /\
+    all_bytes (pad ++ EM) = true /\ 0 <= bytesToNumber (pad ++ EM) < n /\
+    EMSA_PSS_verify hash hLen mHash EM (numBits n - 1) (zlen salt) = Ok true.
+  Proof.
+    intros Hsalt Eenc emLen pad.
+    assert (Hn0 : 0 < n) by lia.
+    pose proof (numBits_pos n Hn0) as HB. pose proof (numBits_spec n Hn0) as [Hlow Hup].
+    assert (HB2 : 2 <= numBits n).
+    { destruct (Z.eq_dec (numBits n) 1) as [E|E]; [rewrite E in Hup; change (2 ^ 1) with 2 in Hup; lia|lia]. }
+    destruct (emLen_vs_numBytes (numBits n) HB) as [EL1 EL2]. fold (numBytes n) in EL1, EL2. fold emLen in EL1, EL2.
+    assert (Hd : 0 <= numBytes n - emLen <= 1).
+    { destruct (Z.eq_dec (numBits n mod 8) 1) as [E|E]; [rewrite (EL2 E)|rewrite (EL1 E)]; lia. }
+    assert (Hsmall : divceil (numBits n - 1) 8 - hLen - 1 <= 2 ^ 32 * hLen) by (fold emLen; nia).
+    destruct (pss_encode_then_verify hash hLen HhLen Hlen Hbytes mHash (numBits n - 1) salt EM ltac:(lia) Hsalt Hsmall Eenc)
+      as (LEM & BEM & VEM & Hver). fold emLen in LEM.
+    assert (Lpad : zlen pad = numBytes n - emLen).
+    { unfold pad. rewrite LEM. rewrite zeros_zlen by lia. lia. }
+    pose proof (b2n_range EM BEM) as [H0 _].
+    repeat split; try lia.
+    - rewrite zlen_app, Lpad, LEM. lia.
+    - rewrite all_bytes_app. unfold pad. rewrite zeros_bytes, BEM. reflexivity.
+    - unfold pad. rewrite b2n_zeros_app. exact H0.
+    - unfold pad. rewrite b2n_zeros_app. lia.
+    - exact Hver.
+  Qed.
+
+  (* holds for EVERY modulus size since /repo cc7bf57 (before: only when modBits <> 1 mod 8) *)
   Theorem pss_sign_then_verify mHash salt S :
-    numBits n mod 8 <> 1 -> all_bytes salt = true ->
+    all_bytes salt = true ->
     RSASSA_PSS_sign hash hLen n priv mHash salt = Ok S ->
     RSASSA_PSS_verify hash hLen n e mHash S (zlen salt) = Ok true.
   Proof.
-    intros Hmod Hsalt. unfold RSASSA_PSS_sign.
-    pose proof (numBits_pos n Hn) as HB.
-    assert (HB2 : 2 <= numBits n).
-    { destruct (Z.eq_dec (numBits n) 1) as [E|E]; [rewrite E in Hmod; cbn in Hmod; lia|lia]. }
-    destruct (emLen_vs_numBytes (numBits n) HB) as [EL _]. specialize (EL Hmod). fold (numBytes n) in EL.
+    intros Hsalt. unfold RSASSA_PSS_sign. assert (Hn0 : 0 < n) by lia.
     destruct (EMSA_PSS_encode hash hLen mHash (numBits n - 1) salt) as [EM|x] eqn:Eenc; cbn [bind]; [|discriminate].
-    assert (Hsmall : divceil (numBits n - 1) 8 - hLen - 1 <= 2 ^ 32 * hLen) by (rewrite EL; nia).
-    destruct (pss_encode_then_verify hash hLen HhLen Hlen Hbytes mHash (numBits n - 1) salt EM ltac:(lia) Hsalt Hsmall Eenc)
-      as (LEM & BEM & VEM & Hver).
-    rewrite EL in LEM.
-    pose proof (numBits_spec n Hn) as [Hlow _].
-    pose proof (b2n_range EM BEM) as [H0 _].
-    unfold raw_private_key_op_bytes. rewrite LEM, Z.eqb_refl. cbn [negb].
-    destruct (bytesToNumber EM >=? n) eqn:E1; [rewrite Z.geb_leb in E1; apply Z.leb_le in E1; lia|].
+    destruct (padded_em mHash salt EM Hsalt Eenc) as (Hd & Lpad & LEM' & BEM' & [V0 V1] & Hver).
+    set (pad := zeros (Z.max (numBytes n - zlen EM) 0)) in *.
+    unfold raw_private_key_op_bytes. rewrite LEM', Z.eqb_refl. cbn [negb].
+    destruct (bytesToNumber (pad ++ EM) >=? n) eqn:E1; [rewrite Z.geb_leb in E1; apply Z.leb_le in E1; lia|].
     intros Hs. injection Hs as <-.
-    destruct (Hpriv (bytesToNumber EM) ltac:(lia)) as [[P0 P1] P2].
-    pose proof (numBytes_pos n Hn) as Hk. pose proof (numBytes_upper n Hn) as Hu.
+    destruct (Hpriv (bytesToNumber (pad ++ EM)) (conj V0 V1)) as [[P0 P1] P2].
+    pose proof (numBytes_pos n Hn0) as Hk. pose proof (numBytes_upper n Hn0) as Hu.
     unfold RSASSA_PSS_verify, raw_public_key_op_bytes.
     rewrite n2b_zlen by lia. rewrite Z.eqb_refl. cbn [negb]. rewrite b2n_n2b by lia.
-    destruct (priv (bytesToNumber EM) >=? n) eqn:E2; [rewrite Z.geb_leb in E2; apply Z.leb_le in E2; lia|].
+    destruct (priv (bytesToNumber (pad ++ EM)) >=? n) eqn:E2; [rewrite Z.geb_leb in E2; apply Z.leb_le in E2; lia|].
     unfold raw_public_op. rewrite P2. rewrite n2b_b2n by assumption.
-    rewrite Hver. reflexivity.
+    rewrite LEM'. rewrite <- Lpad.
+    rewrite py_slice_app_head, py_slice_app_tail.
+    assert (Ez : existsb (fun x => negb (x =? 0)) pad = false).
+    { apply existsb_nonzero_false. intros x Hx. apply zeros_all_zero in Hx. exact Hx. }
+    rewrite Ez. rewrite Hver. reflexivity.
   Qed.
 
-  (* signing succeeds whenever hash and salt fit *)
+  (* signing succeeds whenever hash and salt fit into emLen *)
   Theorem pss_sign_succeeds mHash salt :
-    numBits n mod 8 <> 1 -> all_bytes salt = true -> hLen + zlen salt + 2 <= numBytes n ->
+    all_bytes salt = true -> hLen + zlen salt + 2 <= divceil (numBits n - 1) 8 ->
     exists S, RSASSA_PSS_sign hash hLen n priv mHash salt = Ok S.
   Proof.
-    intros Hmod Hsalt Hfit. unfold RSASSA_PSS_sign.
-    pose proof (numBits_pos n Hn) as HB.
-    assert (HB2 : 2 <= numBits n).
-    { destruct (Z.eq_dec (numBits n) 1) as [E|E]; [rewrite E in Hmod; cbn in Hmod; lia|lia]. }
-    destruct (emLen_vs_numBytes (numBits n) HB) as [EL _]. specialize (EL Hmod). fold (numBytes n) in EL.
-    assert (Hsmall : divceil (numBits n - 1) 8 - hLen - 1 <= 2 ^ 32 * hLen) by (rewrite EL; nia).
+    intros Hsalt Hfit. unfold RSASSA_PSS_sign. assert (Hn0 : 0 < n) by lia.
     destruct (EMSA_PSS_encode hash hLen mHash (numBits n - 1) salt) as [EM|x] eqn:Eenc; cbn [bind].
-    - destruct (pss_encode_then_verify hash hLen HhLen Hlen Hbytes mHash (numBits n - 1) salt EM ltac:(lia) Hsalt Hsmall Eenc)
-        as (LEM & BEM & VEM & _).
-      rewrite EL in LEM. pose proof (numBits_spec n Hn) as [Hlow _]. pose proof (b2n_range EM BEM) as [H0 _].
-      unfold raw_private_key_op_bytes. rewrite LEM, Z.eqb_refl. cbn [negb].
-      destruct (bytesToNumber EM >=? n) eqn:E1; [rewrite Z.geb_leb in E1; apply Z.leb_le in E1; lia|].
+    - destruct (padded_em mHash salt EM Hsalt Eenc) as (Hd & Lpad & LEM' & BEM' & [V0 V1] & _).
+      unfold raw_private_key_op_bytes. rewrite LEM', Z.eqb_refl. cbn [negb].
+      destruct (bytesToNumber (_ ++ EM) >=? n) eqn:E1; [rewrite Z.geb_leb in E1; apply Z.leb_le in E1; lia|].
       eexists. reflexivity.
-    - exfalso. unfold EMSA_PSS_encode in Eenc. rewrite EL in Eenc.
-      destruct (numBytes n <? hLen + zlen salt + 2) eqn:E0; [apply Z.ltb_lt in E0; lia|].
+    - exfalso. unfold EMSA_PSS_encode in Eenc. set (emLen := divceil (numBits n - 1) 8) in *.
+      destruct (emLen <? hLen + zlen salt + 2) eqn:E0; [apply Z.ltb_lt in E0; lia|].
       pose proof (zlen_nonneg salt).
-      destruct (MGF1_ok hash hLen HhLen Hlen Hbytes (hash (zeros 8 ++ mHash ++ salt)) (numBytes n - hLen - 1)) as [m [Em [Lm _]]];
-        [rewrite EL in Hsmall; lia|].
+      pose proof (numBits_pos n Hn0) as HB.
+      destruct (emLen_vs_numBytes (numBits n) HB) as [EL1 EL2]. fold (numBytes n) in EL1, EL2. fold emLen in EL1, EL2.
+      assert (Hle : emLen <= numBytes n).
+      { destruct (Z.eq_dec (numBits n mod 8) 1) as [E|E]; [rewrite (EL2 E)|rewrite (EL1 E)]; lia. }
+      destruct (MGF1_ok hash hLen HhLen Hlen Hbytes (hash (zeros 8 ++ mHash ++ salt)) (emLen - hLen - 1)) as [m [Em [Lm _]]];
+        [nia|].
       rewrite Em in Eenc. cbn [bind] in Eenc.
       destruct m as [|m0 mt]; [change (zlen (@nil Z)) with 0 in Lm; lia|].
-      set (DB := zeros (numBytes n - zlen salt - hLen - 2) ++ [1] ++ salt) in Eenc.
+      set (DB := zeros (emLen - zlen salt - hLen - 2) ++ [1] ++ salt) in Eenc.
       destruct DB as [|d0 DBt] eqn:EDB.
-      + unfold DB in EDB. destruct (zeros (numBytes n - zlen salt - hLen - 2)); discriminate.
+      + unfold DB in EDB. destruct (zeros (emLen - zlen salt - hLen - 2)); discriminate.
       + rewrite xor_bytes_cons in Eenc. cbn [and_first bind] in Eenc. discriminate.
-  Qed.
-
-  (* modBits = 1 mod 8: EM has one byte fewer than the modulus, the raw operation refuses it *)
-  Theorem pss_sign_fails_modbits_1_mod_8 mHash salt :
-    numBits n mod 8 = 1 -> 2 <= numBits n -> all_bytes salt = true ->
-    exists x, RSASSA_PSS_sign hash hLen n priv mHash salt = Err x.
-  Proof.
-    intros Hmod HB2 Hsalt. unfold RSASSA_PSS_sign.
-    pose proof (numBits_pos n Hn) as HB.
-    destruct (emLen_vs_numBytes (numBits n) HB) as [_ EL]. specialize (EL Hmod). fold (numBytes n) in EL.
-    destruct (EMSA_PSS_encode hash hLen mHash (numBits n - 1) salt) as [EM|x] eqn:Eenc; cbn [bind]; [|eexists; reflexivity].
-    assert (Hsmall : divceil (numBits n - 1) 8 - hLen - 1 <= 2 ^ 32 * hLen) by (rewrite EL; nia).
-    destruct (pss_encode_then_verify hash hLen HhLen Hlen Hbytes mHash (numBits n - 1) salt EM ltac:(lia) Hsalt Hsmall Eenc)
-      as (LEM & _).
-    unfold raw_private_key_op_bytes. rewrite LEM, EL.
-    destruct (numBytes n - 1 =? numBytes n) eqn:E; [apply Z.eqb_eq in E; lia|]. cbn [negb].
-    eexists. reflexivity.
   Qed.
 End PssRsa.
